@@ -1290,7 +1290,7 @@ pub fn c09(big: bool) -> BoxedStrategy<Case> {
         // a subscriber that is recreated from Default on restart keeps its identity - and its subscriptions
         1 => mailbox().prop_map(|mailbox| SpawnSpec::Build { mailbox, strategy: RStrat::Recreate, timeout: None, fail_on_timeout: false, owning: false }),
     ];
-    let sub_started = prop_oneof![2 => Just(vec![]), 5 => Just(vec![Step::Subscribe(0)]), 1 => Just(vec![Step::Subscribe(1)]), 2 => Just(vec![Step::Subscribe(0), Step::Subscribe(1)])];
+    let sub_started = prop_oneof![2 => Just(vec![]), 7 => Just(vec![Step::Subscribe(0)]), 1 => Just(vec![Step::Subscribe(1)]), 2 => Just(vec![Step::Subscribe(0), Step::Subscribe(1)])];
     let topic = prop_oneof![5 => Just(0u8), 1 => Just(1u8)];
     let how = prop_oneof![Just(PubHow::Static), Just(PubHow::ViaAddr)];
     let op = prop_oneof![
@@ -1298,7 +1298,7 @@ pub fn c09(big: bool) -> BoxedStrategy<Case> {
         14 => (h(), topic.clone()).prop_map(|(h, topic)| ClientOp::SubscribeFor { h, topic }),
         8 => (h(), topic.clone()).prop_map(|(h, topic)| ClientOp::UnsubscribeFor { h, topic }),
         8 => topic.clone().prop_map(|topic| ClientOp::BrokerPing { topic }),
-        3 => h().prop_map(|h| ClientOp::Stop { h }),
+        6 => h().prop_map(|h| ClientOp::Stop { h }),
         3 => h().prop_map(|h| ClientOp::Drop { h }),
         4 => h().prop_map(|h| ClientOp::Restart { h }),
         8 => (h(), topic, any::<bool>()).prop_map(|(h, topic, call)| {
@@ -1312,7 +1312,12 @@ pub fn c09(big: bool) -> BoxedStrategy<Case> {
     ];
     // which client holds an address of which subscriber: mostly everybody, but also subscribers that nobody
     // holds (they subscribe in `started` and are gone at once: a stale entry next to terminated-but-held ones)
-    let held = vec(prop::bool::weighted(0.85), 12..=12);
+    let held = (vec(prop::bool::weighted(0.9), 12..=12), vec(prop::bool::weighted(0.85), 4..=4)).prop_map(|(mut h, a)| {
+        for (i, x) in h.iter_mut().enumerate() {
+            *x = *x && a[i % 4];
+        }
+        h
+    });
     (vec((sub_spawn, sub_started), 1..=4), 1usize..=3, held)
         .prop_flat_map(move |(subs, n, held)| (Just(subs), vec(vec(op.clone(), 3..=max_ops), n..=n), schedule(if big { 128 } else { 64 }), Just(held)))
         .prop_map(|(subs, mut clients, schedule, held)| {
